@@ -307,6 +307,16 @@ func (x *xl) block(stmts []ast.Stmt, k *cont) ([]string, error) {
 			}
 			return append(lines, more...), nil
 		case *ast.ReturnStmt:
+			if x.recvAcc {
+				var rid *ast.Ident
+				if len(y.Results) == 1 {
+					rid, _ = y.Results[0].(*ast.Ident)
+				}
+				if rid == nil || x.p.info.Uses[rid] != x.acc {
+					return nil, x.errf(s, "a method with Acc $recv must return its receiver")
+				}
+				return append(lines, k.ret(x.nameOf(x.acc))), nil
+			}
 			if len(y.Results) != len(x.results) {
 				return nil, x.errf(s, "return with %d values (function has %d results)", len(y.Results), len(x.results))
 			}
@@ -1024,7 +1034,14 @@ func (w *xlWorld) translateFunc(repo string, p *xlPkg, f *xlFunc, fd *ast.FuncDe
 		x.paramObjs[v] = true
 		var t string
 		var err error
-		if f.Acc != "" && v.Name() == f.Acc {
+		if f.Acc == "$recv" && v == sig.Recv() {
+			// the method mutates its own receiver and returns it: the receiver is the threaded value
+			if k := domKind(v.Type()); !domMode || (k != "list" && k != "cont") || sig.Results().Len() != 1 || domKind(sig.Results().At(0).Type()) != k {
+				return fmt.Errorf("Acc $recv needs a list / container builder receiver and that builder as the single result")
+			}
+			x.acc, x.recvAcc = v, true
+			t, err = w.leanType(v.Type())
+		} else if f.Acc != "" && v.Name() == f.Acc {
 			pt, ok := v.Type().Underlying().(*types.Pointer)
 			if !ok {
 				return fmt.Errorf("accumulator %s is not a pointer", f.Acc)
@@ -1085,6 +1102,9 @@ func (w *xlWorld) translateFunc(repo string, p *xlPkg, f *xlFunc, fd *ast.FuncDe
 			return "", fmt.Errorf("%s: unsupported: named results", w.fset.Position(fd.Pos()))
 		}
 		x.results = append(x.results, sig.Results().At(i).Type())
+	}
+	if x.recvAcc {
+		x.results = nil // `return l` hands back the receiver = the threaded value
 	}
 	if len(x.results) == 0 && x.acc == nil {
 		return "", fmt.Errorf("%s: unsupported: function without results", w.fset.Position(fd.Pos()))
